@@ -120,7 +120,10 @@ fn hslf_case(rep: &mut Report, c: [f32; 3]) {
             rep.worst("f32_hsl_to_rgb_vs_f64_reference(informational)", d, f64::INFINITY, || format!("hsl{:?}", c));
             // and back: HSL→RGB→HSL is the other composition of "mutually
             // inverse"; hue is undefined for s = 0 or l ∈ {0,1}, and h = 1 ≡ 0
-            if c[1] > 1e-3 && c[2] > 1e-3 && c[2] < 1.0 - 1e-3 {
+            // (judged where the colour has a chroma of at least 1e-3: below
+            // that an implementation may call it a gray, which the stated
+            // RGB→HSL→RGB clause allows)
+            if c[1] > 1e-3 && c[2] > 1e-3 && c[2] < 1.0 - 1e-3 && ((1.0 - (2.0 * c[2] - 1.0).abs()) * c[1]) >= 1e-3 {
                 let back = catch(|| out.to_hsl());
                 if let Err(m) = &back {
                     rep.violation("color.f32_rgb_roundtrip_panicked", format!("hsl{:?}.to_rgb() = {:?}, and to_hsl() of that in-range colour panicked: {m}", c, out.0), cj());
@@ -198,7 +201,15 @@ fn alpha_case(rep: &mut Report, c: [u8; 4], f: [f32; 4]) {
     match r {
         Err(m) => rep.violation("color.hsla_panicked", format!("to_hsla/to_rgba panicked: {m}"), Json::obj().set("rgba8", format!("{c:?}"))),
         Ok((h4, back, h3, b3, h43)) => {
-            if h4[..3] != h3[..] || h4[3] != c[3] || back[..3] != b3[..] || back[3] != c[3] || h43 != h3 {
+            // alpha kept through both conversions and dropped by to_hsl(); the
+            // colour channels obey the same relation as the 3-channel path
+            // (round trip within 8/255). Equality with the 3-channel sibling,
+            // bit for bit, is what the library does today and is counted.
+            let rt = (0..3).map(|i| (back[i] as i32 - c[i] as i32).abs()).max().unwrap_or(0);
+            if h4[..3] == h3[..] && back[..3] == b3[..] {
+                rep.count("alpha_path.u8_identical_to_3_channel_path");
+            }
+            if h4[3] != c[3] || back[3] != c[3] || h43[..] != h4[..3] || rt > 8 {
                 rep.violation("color.alpha_or_channels_not_kept", format!("rgba{c:?}: to_hsla={h4:?} (3-channel {h3:?}), back to_rgba={back:?} (3-channel {b3:?})"), Json::obj().set("rgba8", format!("{c:?}")));
                 return;
             }
@@ -216,7 +227,12 @@ fn alpha_case(rep: &mut Report, c: [u8; 4], f: [f32; 4]) {
         Err(m) => rep.violation("color.hsla_panicked", format!("float to_hsla/to_rgba panicked: {m}"), Json::obj().set("rgba_f32", f32v(&f))),
         Ok((h4, back, h3, b3)) => {
             let same = |a: &[f32], b: &[f32]| a.iter().zip(b).all(|(x, y)| x.to_bits() == y.to_bits());
-            if !same(&h4[..3], &h3) || h4[3].to_bits() != f[3].to_bits() || !same(&back[..3], &b3) || back[3].to_bits() != f[3].to_bits() {
+            if same(&h4[..3], &h3) && same(&back[..3], &b3) {
+                rep.count("alpha_path.f32_identical_to_3_channel_path");
+            }
+            let in_range = f[..3].iter().all(|x| in01(*x));
+            let rt = (0..3).map(|i| (back[i] - f[i]).abs()).fold(0.0f32, f32::max);
+            if h4[3].to_bits() != f[3].to_bits() || back[3].to_bits() != f[3].to_bits() || (in_range && !(rt <= 1e-4)) {
                 rep.violation("color.alpha_or_channels_not_kept", format!("rgba{f:?}: to_hsla={h4:?} (3-channel {h3:?}), back to_rgba={back:?} (3-channel {b3:?})"), Json::obj().set("rgba_f32", f32v(&f)));
                 return;
             }
@@ -226,13 +242,23 @@ fn alpha_case(rep: &mut Report, c: [u8; 4], f: [f32; 4]) {
 }
 
 fn clamp_case(rep: &mut Report, v: [f32; 4]) {
-    let exp = |x: f32| -> Option<u8> {
+    // "float-to-8-bit conversion clamps": below 0 gives 0, above 1 gives 255,
+    // in between a level next to 255·x (truncation, as the library does today,
+    // or rounding to nearest: the statement does not say which). None = NaN,
+    // not judged. Returns the admissible closed range of levels.
+    let exp = |x: f32| -> Option<(u8, u8)> {
         if x.is_nan() {
             None
+        } else if x <= 0.0 {
+            Some((0, 0))
+        } else if x >= 1.0 {
+            Some((255, 255))
         } else {
-            Some((x.clamp(0.0, 1.0) as f64 * 255.0) as u8)
+            let y = x as f64 * 255.0;
+            Some((y.floor() as u8, (y.ceil() as u8).max(y.floor() as u8)))
         }
     };
+    let within = |g: u8, e: (u8, u8)| g >= e.0 && g <= e.1;
     let r = catch(|| {
         let c4: Color4f = rgba(v[0], v[1], v[2], v[3]);
         let c3: Color3f = rgb(v[0], v[1], v[2]);
@@ -245,9 +271,10 @@ fn clamp_case(rep: &mut Report, v: [f32; 4]) {
             let mut ok = true;
             for i in 0..4 {
                 if let Some(e) = exp(v[i]) {
-                    ok &= a4[i] == e;
+                    ok &= within(a4[i], e);
                     if i < 3 {
-                        ok &= a3[i] == e && b3[i] == e && b4[i] == e;
+                        // the four entry points agree with each other exactly
+                        ok &= within(a3[i], e) && a3[i] == a4[i] && b3[i] == a4[i] && b4[i] == a4[i];
                     }
                 }
             }
@@ -368,6 +395,15 @@ pub fn run(cfg: &Cfg, rep: &mut Report) {
             2 => [1.0, c[1], c[2]],
             3 => [c[0], 0.0, c[2]],
             4 => [rng.ulp_nudge(c[1]).clamp(0.0, 1.0), c[1], c[2]], // nearly equal
+            // near-grays at ordinary magnitudes: a gray plus a chroma of
+            // 1e-7..1e-2 in every direction (an "achromatic below ε" shortcut
+            // with ε > 1e-4 breaks the stated RGB→HSL→RGB bound here)
+            5 => {
+                let e = rng.log_f32(1e-7, 1e-2);
+                let g = c[0];
+                rep.count("f32_random.near_gray");
+                [(g + e * (c[1] - 0.5)).clamp(0.0, 1.0), (g + e * (c[2] - 0.5)).clamp(0.0, 1.0), (g + e * (rng.f32_in(0.0, 1.0) - 0.5)).clamp(0.0, 1.0)]
+            }
             _ => c,
         };
         let mut hs = Hasher::new();
